@@ -193,7 +193,33 @@ U7 = universe("U7", 4, [
 ], base=["(g (p3 1 2 3))", "(h (p3 1 2 3) (v 1))"],
    note="symmetry groups with two generators transported by move_to")
 
-ALL = {"U7": U7, "U1": U1, "U2": U2, "U3": U3, "U4": U4, "U5": U5, "U6": U6}
+# U8 "self reference under an analysis": a class that contains an e-node referring to the class itself ({v1, h(v1, c)}),
+# whose child class is then merged into a bigger one with other leaves: the e-node is re-canonicalised AND its re-make
+# improves its own class (only for analyses in which every e-node contributes, e.g. the set of leaf operators).
+U8 = universe("U8", 4, [
+    (V1, "(h (v 1) c)"),
+    (C, D),
+    (V1, GV1),
+    (D, "(g d)"),
+    (C, "(h c c)"),
+    (V1, "(h (v 1) (v 1))"),
+], base=["(g d)", "(h d d)"],
+   note="self-referential e-nodes whose class datum improves while they are re-canonicalised")
+
+# U9 "chains": a class deprecated by congruence (g(f12) into g(p12) when f12 = p12), the survivor deprecated by an explicit
+# union into a bigger class (h(v1,v2) with parents), which then loses a slot: the old ids form an uncompressed two-step
+# union-find chain whose last link was written before the leader shrank.  Needs three calls, so MaxEqs 3 in the quick tier.
+HV12 = "(h (v 1) (v 2))"
+U9 = universe("U9", 4, [
+    (F12, P12),
+    ("(g (p 1 2))", HV12),
+    (HV12, "(h (v 1) (v 3))"),
+    ("(g (f 1 2))", HV12),
+    (HV12, "(h (v 2) (v 1))"),
+], base=["(g (f 1 2))", "(g (p 1 2))", "(g %s)" % HV12, "(h %s c)" % HV12],
+   note="two-step union-find chains of dead ids, then the leader shrinks / gets a symmetry")
+
+ALL = {"U9": U9, "U8": U8, "U7": U7, "U1": U1, "U2": U2, "U3": U3, "U4": U4, "U5": U5, "U6": U6}
 
 if __name__ == "__main__":
     out = os.path.dirname(os.path.abspath(__file__))
